@@ -126,7 +126,13 @@ func genSpec(ch *simrt.Chooser, consistent bool) (*tls.ClientHelloSpec, string) 
 	if tls13 {
 		var ks []tls.KeyShare
 		if grease {
-			ks = append(ks, tls.KeyShare{Group: tls.CurveID(gv), Data: []byte{0}})
+			// (captures and hand-written specs carry GREASE shares of any length, not only the one
+			// byte the predefined parrots use)
+			gd := []byte{0}
+			if ch.Bool(30, "x-long-grease-share") {
+				gd = make([]byte, []int{2, 5, 32}[ch.Pick(3, "x-grease-share-len")])
+			}
+			ks = append(ks, tls.KeyShare{Group: tls.CurveID(gv), Data: gd})
 		}
 		// shares for a prefix of the listed groups (possibly none beyond GREASE: forces HRR)
 		nshare := ch.Range(0, ng, "nshares")
